@@ -2759,6 +2759,18 @@ impl Gen {
                     _ => (format!("const {} = 0xFFFFFFFFu;", name), CKind::U32, None),
                 }
             }
+            7 if self.rng.pct(60) => {
+                // any finite f32 bit pattern, written with the shortest decimal that reads back as that value
+                // (up to 9 significant digits, every binade from subnormals to 3.4e38)
+                self.feat("const_f32_random_bits");
+                let mut bits = self.rng.next_u64() as u32;
+                if (bits >> 23) & 0xff == 0xff {
+                    bits &= !(1 << 30);
+                }
+                let v = f32::from_bits(bits);
+                let lit = if v == 0.0 { if v.is_sign_negative() { "-0.0f".to_string() } else { "0.0f".to_string() } } else { format!("{:e}f", v) };
+                (format!("const {}: f32 = {};", name, lit), CKind::F32, None)
+            }
             7 => {
                 self.feat("const_float_extreme");
                 let v = *self.rng.pick(&["3.4028235e38", "-3.4028235e38", "1e-45", "1.17549435e-38", "1e-40", "3.4028234e38f"]);
@@ -2767,6 +2779,18 @@ impl Gen {
                 } else {
                     (format!("const {} = {};", name, v), CKind::AFloat, None)
                 }
+            }
+            8 if self.allow_f64 && self.rng.pct(50) => {
+                self.feat("f64_const");
+                self.feat("f64");
+                self.feat("const_f64_random_bits");
+                let mut bits = self.rng.next_u64();
+                if (bits >> 52) & 0x7ff == 0x7ff {
+                    bits &= !(1 << 62);
+                }
+                let v = f64::from_bits(bits);
+                let lit = if v == 0.0 { "0.0lf".to_string() } else { format!("{:e}lf", v) };
+                (format!("const {}: f64 = {};", name, lit), CKind::F64, None)
             }
             8 if self.allow_f64 => {
                 self.feat("f64_const");
@@ -3210,7 +3234,12 @@ impl Gen {
                 self.feat("vertex_input_struct_shared");
                 *self.rng.pick(&compat)
             } else {
-                let n = self.rng.range(cfg.vin_members.0, cfg.vin_members.1);
+                let mut n = self.rng.range(cfg.vin_members.0, cfg.vin_members.1);
+                if self.rng.pct(8) && !(used_bi.contains(&"vertex_index") && used_bi.contains(&"instance_index")) {
+                    // a struct parameter made of builtins only still is a struct parameter (one buffer slot, no attribute)
+                    self.feat("vertex_input_struct_builtins_only");
+                    n = 0;
+                }
                 if used_locs.len() + n > 16 {
                     break;
                 }
